@@ -173,11 +173,20 @@ pub fn minimise(prop: &str, sc: &Scenario, aux: Option<&Scenario>, class: &str) 
         }
     }
     let mut evals = 0usize;
-    let budget = 1500usize;
+    let mut budget = 1500usize;
+    let started = Instant::now();
+    // long macro-step histories cost seconds per evaluation: bound the effort
+    if sc.steps.iter().any(|s| matches!(s, Step::IdHistory { .. })) {
+        budget = 12;
+    }
     let differential = aux.is_some();
     // for differential oracles both scenarios have the same step skeleton: remove in lock-step
     let try_case = |s: &Scenario, x: Option<&Scenario>, evals: &mut usize| -> bool {
         *evals += 1;
+        if started.elapsed().as_secs() > 20 {
+            *evals = usize::MAX / 2; // wall-clock bound reached: stop minimising
+            return false;
+        }
         same_class(&judge(prop, s, x), class)
     };
     let mut n = 2usize;
